@@ -57,6 +57,21 @@ struct MemoryRecord {
 QH_BEGIN
 namespace qw {
 
+// A numeral whose exponent has eight or more digits makes the library's power-of-ten loop run for up to 1.6e8
+// iterations (finite, seconds of CPU: `[1e4294967295]`); texts containing one get a soft step budget, because no
+// fixed step count separates that from an endless loop. (Exponent range is C09, not claimed.)
+inline bool has_long_exponent(const std::u32string &t) {
+    for (size_t i = 0; i + 8 < t.size(); i++) {
+        if (t[i] != 'e' && t[i] != 'E') continue;
+        size_t k = i + 1;
+        if (k < t.size() && (t[k] == '+' || t[k] == '-')) k++;
+        size_t d = 0;
+        while (k < t.size() && t[k] >= '0' && t[k] <= '9') k++, d++;
+        if (d >= 8) return true;
+    }
+    return false;
+}
+
 // A caller's thin wrapper around one library call: a small optimisation unit of its own, as in user code. Inside the
 // worlds' large interpreters the optimiser gives up early; in a unit this small it uses everything it may assume
 // (the optimiser twins found GCC -O3 dropping stores made through another union member's type only here).
